@@ -149,8 +149,19 @@ func (r *Run) snapshotStore(extra ...[2]string) *storeSnap {
 		bn = append(bn, n)
 	}
 	sort.Strings(bn)
+	inNames := map[string]bool{}
+	for _, n := range names {
+		inNames[n] = true
+	}
 	for _, n := range bn {
 		bs := &bucketSnap{Keys: map[string]*keySnap{}}
+		if r.Plan.Config.AutoBucket && !inNames[n] {
+			// with auto-creation a look at a bucket that does not exist brings
+			// it into being: what ListBuckets does not show is not looked at
+			bs.ListStatus = 404
+			s.Buckets[n] = bs
+			continue
+		}
 		bs.ListStatus, bs.Listing = r.observeListing(n)
 		if bs.ListStatus == 200 {
 			bs.Grouped = r.observeGrouped(n)
